@@ -1138,7 +1138,7 @@ def _ls_worker(spec, widx, g, k, kk, name, algo, space, shared):
       other = (fin + 1) % kk
       # ('non-positive': trial 1 has reward 0.0, the maximum; all others are negative)
       rew = None if fb is None else (
-          -10.0 * (fb.id - 1) if spec.get('rewards') == 'non-positive' else float(fb.id * 10 + rnd))
+          0.0 - 10.0 * (fb.id - 1) if spec.get('rewards') == 'non-positive' else float(fb.id * 10 + rnd))
       if (fb is not None and finishing and act == 'early-split' and kk > 1 and k == fin):
         # phase 0: the 'evaluator' is too early.  With no measurement there is
         # nothing to report, so the trial cannot be completed by this call.
